@@ -7,6 +7,19 @@ use serde_json::json;
 use std::io::BufRead;
 use std::time::{Duration, Instant};
 
+/// a receiver serialised THROUGH A SHARED REFERENCE: the sending side still holds the handle it was sent from
+struct Keep(std::rc::Rc<ipc::IpcReceiver<u32>>);
+impl serde::Serialize for Keep {
+    fn serialize<S: serde::Serializer>(&self, s: S) -> Result<S::Ok, S::Error> {
+        (*self.0).serialize(s)
+    }
+}
+impl<'de> serde::Deserialize<'de> for Keep {
+    fn deserialize<D: serde::Deserializer<'de>>(d: D) -> Result<Self, D::Error> {
+        Ok(Keep(std::rc::Rc::new(<ipc::IpcReceiver<u32> as serde::Deserialize>::deserialize(d)?)))
+    }
+}
+
 pub fn run() {
     let stdin = std::io::stdin();
     for line in stdin.lock().lines() {
@@ -45,12 +58,36 @@ pub fn run() {
             tx = crx.recv().unwrap();
             spawned = std::process::Command::new("/bin/sleep").arg("4").spawn().ok();
         }
+        let mut stolen: Vec<u32> = Vec::new();
+        let mut stale: Option<std::rc::Rc<ipc::IpcReceiver<u32>>> = None;
+        if how == "kept" {
+            // the receiver travels on while the sending side keeps the handle it was sent from: that handle is dead from then on
+            // (an error or a panic, never a message) - the backlog and everything later belong to the new owner
+            let (ctx, crx) = ipc::channel::<Keep>().unwrap();
+            let old = std::rc::Rc::new(rx);
+            ctx.send(Keep(old.clone())).unwrap();
+            let poll_old = |old: &std::rc::Rc<ipc::IpcReceiver<u32>>, stolen: &mut Vec<u32>| {
+                for _ in 0..(nmsg + 2) {
+                    if let Ok(Ok(v)) = std::panic::catch_unwind(std::panic::AssertUnwindSafe(|| old.try_recv())) {
+                        stolen.push(v);
+                    }
+                }
+            };
+            let hook = std::panic::take_hook();
+            std::panic::set_hook(Box::new(|_| {}));
+            poll_old(&old, &mut stolen);
+            let Keep(newrc) = crx.recv().unwrap();
+            poll_old(&old, &mut stolen);
+            std::panic::set_hook(hook);
+            rx = std::rc::Rc::try_unwrap(newrc).ok().expect("a freshly decoded handle is unique");
+            stale = Some(old);
+        }
         let mut extra: Vec<IpcSender<u32>> = (1..clones).map(|_| tx.clone()).collect();
         let t0 = Instant::now();
         let mut child = 0;
         let mut carrier_keep = None;
         let dropper: Option<std::thread::JoinHandle<()>> = match how.as_str() {
-            "polled" => Some(std::thread::spawn(move || {
+            "polled" | "kept" => Some(std::thread::spawn(move || {
                 drop(extra);
                 // messages sent only after the transfer, with the new owner already waiting; then the last sender goes
                 for k in 0..clones as u32 {
@@ -132,6 +169,16 @@ pub fn run() {
             let _ = c.wait();
         }
         let (out, got, us) = res.unwrap_or(("Hang".to_string(), vec![], 0));
-        println!("{}", json!({"kind":"wake","id":id,"out":out,"got":got,"us":us,"polled_empty":polled_empty}));
+        if let Some(old) = stale.take() {
+            // once more after all the traffic, then the stale handle goes (which must not disturb anybody either)
+            let hook = std::panic::take_hook();
+            std::panic::set_hook(Box::new(|_| {}));
+            if let Ok(Ok(v)) = std::panic::catch_unwind(std::panic::AssertUnwindSafe(|| old.try_recv())) {
+                stolen.push(v);
+            }
+            let _ = std::panic::catch_unwind(std::panic::AssertUnwindSafe(move || drop(old)));
+            std::panic::set_hook(hook);
+        }
+        println!("{}", json!({"kind":"wake","id":id,"out":out,"got":got,"us":us,"polled_empty":polled_empty,"stolen":stolen}));
     }
 }
